@@ -93,12 +93,69 @@ func (c *Ctx) c17ErrorCode() {
 	// pair each field code with the string that follows it
 	emitted := map[string]byte{}
 	codeSite := map[byte]ssa.CallInstruction{}
+	// a small helper of the package that writes one (code, text, NUL) field: AddByte(p), AddString(q), AddNullTerminate()
+	fieldHelper := func(h *ssa.Function) (codeIdx, valIdx int, ok bool) {
+		if h == nil || !c.P.InPkg(h, "wire") || len(h.Blocks) != 1 {
+			return 0, 0, false
+		}
+		codeIdx, valIdx = -1, -1
+		seq := ""
+		for _, ci := range core.Calls(h) {
+			switch writerMethod(ci) {
+			case "AddByte":
+				seq += "B"
+				for i, p := range h.Params {
+					if core.StripConv(ci.Common().Args[1]) == ssa.Value(p) {
+						codeIdx = i
+					}
+				}
+			case "AddString":
+				seq += "S"
+				for i, p := range h.Params {
+					if core.StripConv(ci.Common().Args[1]) == ssa.Value(p) {
+						valIdx = i
+					}
+				}
+			case "AddNullTerminate":
+				seq += "0"
+			case "":
+			default:
+				seq += "?"
+			}
+		}
+		return codeIdx, valIdx, seq == "BS0" && codeIdx >= 0 && valIdx >= 0
+	}
 	for _, b := range ec.Blocks {
 		var cur byte
 		var curSite ssa.CallInstruction
 		for _, in := range b.Instrs {
 			ci, ok := in.(ssa.CallInstruction)
 			if !ok {
+				continue
+			}
+			if ci2, vi, isHelper := fieldHelper(core.StaticCallee(ci)); isHelper {
+				args := ci.Common().Args
+				if k, isK := core.ConstInt(args[ci2]); isK {
+					code := byte(k)
+					arg := args[vi]
+					path, okp := errorFieldPath(arg)
+					if !okp {
+						if call, isCall := arg.(*ssa.Call); isCall {
+							if f := core.StaticCallee(call); f != nil && f.Pkg != nil && f.Pkg.Pkg.Path() == "strconv" && (f.Name() == "Itoa" || f.Name() == "FormatInt") {
+								path, okp = errorFieldPath(call.Call.Args[0])
+							}
+						}
+					}
+					exp, known := errorFieldOracle[code]
+					key := "ErrorCode:field:" + string(rune(code))
+					if known && okp && path == exp {
+						R.OK("C17.R1", key, c.at(ci), "field '"+string(rune(code))+"' carries Error."+exp+" as text", "helper "+fkey(core.StaticCallee(ci))+" writes (code, text, NUL); operand is a load of "+path)
+						emitted[path] = code
+						codeSite[code] = ci
+					} else {
+						R.Fail("C17.R1", key, c.at(ci), "field '"+string(rune(code))+"' carries Error."+exp+" as text", "the text emitted under '"+string(rune(code))+"' is "+describePath(path, okp)+", expected Error."+exp)
+					}
+				}
 				continue
 			}
 			switch writerMethod(ci) {
